@@ -1,6 +1,6 @@
 (* C01 / C03: SkipInstance ends every well-formed record at its own semicolon. *)
 From Coq Require Import List ZArith Bool NArith Lia.
-From SC Require Import P21Lex P21Str P21Str_Proofs P21Scan P21Scan_Proofs P21Skip.
+From SC Require Import P21Lex P21Str P21Str_Proofs P21Sep P21Sep_Proofs P21Skip.
 Import ListNotations.
 Local Open Scope N_scope.
 
